@@ -334,13 +334,18 @@ theorem remove_from (s : St) (ps : List Path) (sel : RemoveSel) (f : Bool) : Cac
   · exact Or.inl h
   · exact Or.inl (foldl_removeObj_sub _ _ a o h)
 
+theorem selfCopy_cache (s : St) (p : Path) : (s.selfCopy p).cache = s.cache := by
+  unfold St.selfCopy
+  repeat' split
+  all_goals rfl
+
 theorem rematerialise_cache (s : St) (ts : List Ent) : (s.rematerialise ts).1.cache = s.cache := by
   unfold St.rematerialise
   apply forEach_rel (fun s s' => s'.cache = s.cache) (fun _ => rfl) (fun _ _ _ h1 h2 => h2.trans h1)
   intro s1 e
   unfold St.rematOne
   repeat' split
-  all_goals first | rfl | exact recheckFromCache_cache _ _ _ _
+  all_goals first | rfl | exact recheckFromCache_cache _ _ _ _ | exact selfCopy_cache _ _
 
 theorem foldl_removeObj_recs (l : List Addr) (s : St) : (l.foldl St.removeObj s).recs = s.recs := by
   induction l generalizing s with
